@@ -43,6 +43,21 @@ PLAN = {
             'harness projection: vertices quantised to 2^-14 lattice unit',
         ],
     },
+    'C12': {
+        'stages': [
+            {'name': 'topo',
+             'mc': [{'module': 'MC_C12', 'cfg': cfgs('MC_C12_thorough.cfg', 'MC_C12_thorough.cfg'), 'workers': 8},
+                    {'module': 'MC_C12', 'cfg': cfgs('MC_C12_tetra.cfg', 'MC_C12_tetra.cfg'), 'workers': 8},
+                    {'module': 'MC_C12b', 'cfg': cfgs('MC_C12b_quick.cfg', 'MC_C12b_thorough.cfg'), 'workers': 8}],
+             'gens': ['gen_c12_random'],
+             'trace': 'Trace_Topo'},
+        ],
+        'assumptions': [
+            'TLC evaluates the L1/L2 operators of MeshTopo.tla correctly',
+            'hash iteration order of the real code is sampled by repetition (fresh RandomState per map), the model covers all orders',
+            'each mesh case runs in a child process with a wall-clock and memory limit; exceeding it is reported as non-termination',
+        ],
+    },
     'C18': {
         'stages': [
             {'name': 'angles',
